@@ -31,23 +31,46 @@ import (
 // runOnce runs stmt with args on a fresh fake database and returns the
 // canonical observation: "OK kind sql args..." or "ERR class".
 func runOnce(stmt *sqlair.Statement, args []any) (line string) {
-	defer func() {
-		if r := recover(); r != nil {
-			line = "PANIC " + fmt.Sprint(r)
-		}
-	}()
+	p := buildPending(stmt, args)
+	return p.run()
+}
+
+// pending: a Query that has been built (arguments bound) but not run yet.
+type pending struct {
+	q     *sqlair.Query
+	f     *fakeDB
+	close func()
+}
+
+func buildPending(stmt *sqlair.Statement, args []any) *pending {
 	sqldb, f := openFake()
-	defer dropFakeDB(f.name)
-	defer sqldb.Close()
 	f.rowsFor = func(sql string, _ []driver.NamedValue) *rowsScript {
 		rs := defaultRows(sql)
 		rs.Rows = nil
 		return rs
 	}
 	db := sqlair.NewDB(sqldb)
-	err := db.Query(context.Background(), stmt, args...).Run()
+	p := &pending{f: f, close: func() { sqldb.Close(); dropFakeDB(f.name) }}
+	func() {
+		defer func() { recover() }()
+		p.q = db.Query(context.Background(), stmt, args...)
+	}()
+	return p
+}
+
+func (p *pending) run() (line string) {
+	defer p.close()
+	defer func() {
+		if r := recover(); r != nil {
+			line = "PANIC " + fmt.Sprint(r)
+		}
+	}()
+	if p.q == nil {
+		return "PANIC in Query"
+	}
+	err := p.q.Run()
 	var prep, run *event
-	evs := f.log()
+	evs := p.f.log()
 	for i := range evs {
 		switch evs[i].Kind {
 		case "prepare":
@@ -74,6 +97,26 @@ func runOnce(stmt *sqlair.Statement, args []any) (line string) {
 		}
 	}
 	return strings.Join(parts, " \x1f ")
+}
+
+// emptied builds an argument of the same type that contributes no value: an empty slice, a struct
+// or map left zero / empty.
+func emptied(a any) any {
+	if a == nil {
+		return nil
+	}
+	v := reflect.ValueOf(a)
+	t := v.Type()
+	if t.Kind() == reflect.Pointer {
+		return reflect.New(t.Elem()).Interface()
+	}
+	switch t.Kind() {
+	case reflect.Slice:
+		return reflect.MakeSlice(t, 0, 0).Interface()
+	case reflect.Map:
+		return reflect.MakeMap(t).Interface()
+	}
+	return reflect.Zero(t).Interface()
 }
 
 // reshape builds another argument of the same type with other contents (other
@@ -150,9 +193,18 @@ func cmdDeterm(args []string) int {
 	defer w.Flush()
 	nviol := 0
 	viol := func(name, q, detail string) {
-		nviol++
-		b, _ := json.Marshal(violation{"C16", name, hx(q), detail})
-		w.Write(append(b, '\n'))
+		props := []string{"C16"}
+		switch name {
+		case "query-built-earlier-runs-with-other-arguments":
+			props = append(props, "C03") // the value behind a placeholder is not the one its expression names
+		case "rejection-depends-on-previous-run":
+			props = append(props, "C08") // arguments that must be rejected were accepted (or the reverse)
+		}
+		for _, p := range props {
+			nviol++
+			b, _ := json.Marshal(violation{p, name, hx(q), detail})
+			w.Write(append(b, '\n'))
+		}
 	}
 	go watchdogFor("C16", "concurrent-or-repeated-use-hangs", func(v violation) {
 		nviol++
@@ -220,6 +272,40 @@ func cmdDeterm(args []string) int {
 			viol("depends-on-previous-run", c.query, "first run on a Statement: "+a1+"  after running another shape first: "+a)
 		}
 		st.Runs += 11
+		// queries built first and run later: each must run with its own arguments
+		p1 := buildPending(stmt1, argsA)
+		p2 := buildPending(stmt1, argsB)
+		p3 := buildPending(stmt2, argsA)
+		if a := p1.run(); a != a1 {
+			viol("query-built-earlier-runs-with-other-arguments", c.query, "built with A, then another query was built with B: want "+a1+"  got "+a)
+		}
+		if b := p2.run(); b != b1 {
+			viol("query-built-earlier-runs-with-other-arguments", c.query, "want "+b1+"  got "+b)
+		}
+		if a := p3.run(); a != a1 {
+			viol("query-built-earlier-runs-with-other-arguments", c.query, "want "+a1+"  got "+a)
+		}
+		// rejections must not depend on what ran before: no arguments at all, and after a run whose
+		// inputs contributed nothing (empty slices, zero omitempty members)
+		fresh, err := sqlair.Prepare(c.query, c.samples...)
+		if err == nil {
+			none := runOnce(fresh, nil)
+			if x := runOnce(stmt1, nil); x != none {
+				viol("rejection-depends-on-previous-run", c.query, "no arguments on a fresh Statement: "+none+"  after other runs: "+x)
+			}
+			var argsE []any
+			for _, a := range argsA {
+				argsE = append(argsE, emptied(a))
+			}
+			stE, err := sqlair.Prepare(c.query, c.samples...)
+			if err == nil {
+				runOnce(stE, argsE)
+				if x := runOnce(stE, nil); x != none {
+					viol("rejection-depends-on-previous-run", c.query, "no arguments on a fresh Statement: "+none+"  after a run with empty arguments: "+x)
+				}
+			}
+		}
+		st.Runs += 7
 		// concurrent: fresh Prepare + run, and shared statement with A and B alternating
 		if st.Cases%3 == 0 {
 			st.Concurrent++
